@@ -78,6 +78,7 @@ type FuncContract struct {
 	Assigns      []Expr
 	HasAssigns   bool
 	Nilable      map[string]bool
+	Ghosts       []MacroParam // ghost NAME: TYPE, ...: logical variables of the contract, universally quantified (fresh constants in the VCs); clauses that mention one are not checked at run time
 	Fresh        bool // result is a freshly allocated object
 	Trusted      bool // body not verified
 	TrustWhy     string
@@ -467,7 +468,7 @@ var clauseKW = map[string]bool{
 	"func": true, "requires": true, "ensures": true, "assigns": true, "nilable": true, "fresh": true,
 	"trusted": true, "layer": true, "loop": true, "props": true, "define": true, "lemma": true,
 	"global": true, "outs": true, "operands": true, "defines": true, "hint": true, "pure": true,
-	"allocates": true, "sample": true, "reads": true, "posthint": true, "import": true, "unreachable": true, "exported": true, "axiom": true, "local": true, "reveal": true, "assert": true, "using": true, "delegates": true, "bridge-also": true,
+	"allocates": true, "sample": true, "reads": true, "posthint": true, "import": true, "unreachable": true, "exported": true, "axiom": true, "local": true, "reveal": true, "assert": true, "using": true, "delegates": true, "bridge-also": true, "ghost": true,
 }
 
 var tagRe = regexp.MustCompile(`^\{([A-Za-z0-9_,\- ]*)\}\s*`)
@@ -603,6 +604,14 @@ func ParseSpecFile(path string) (*Spec, error) {
 				}
 			case "pure":
 				cur.HasAssigns = true
+			case "ghost":
+				for _, t := range strings.Split(rest, ",") {
+					nt := strings.SplitN(t, ":", 2)
+					if len(nt) != 2 {
+						panic(fmt.Sprintf("line %d: ghost NAME: TYPE", l.no))
+					}
+					cur.Ghosts = append(cur.Ghosts, MacroParam{Name: strings.TrimSpace(nt[0]), Type: strings.TrimSpace(nt[1])})
+				}
 			case "nilable":
 				for _, t := range strings.FieldsFunc(rest, func(r rune) bool { return r == ',' || r == ' ' }) {
 					cur.Nilable[t] = true
